@@ -5,6 +5,10 @@ mod common;
 mod gen;
 mod strict;
 mod sinks;
+/// lopdf's public root under the name the Kani harness bodies use (they are compiled inside lopdf under cfg(kani) as well)
+mod verif_lp { pub use lopdf::*; }
+#[path = "../../kani/harnesses.rs"]
+mod verif_kani;
 mod c01;
 mod c03;
 mod c19;
@@ -92,8 +96,27 @@ pub fn run(cmd: &str, thorough: bool) -> Option<Report> {
     })
 }
 
+fn replay_kani(r: &serde_json::Value) -> Result<(), String> {
+    use verif_kani::*;
+    let values: Vec<Vec<u8>> = r["values"].as_array().cloned().unwrap_or_default().iter().map(|v| v.as_array().cloned().unwrap_or_default().iter().map(|b| b.as_u64().unwrap_or(0) as u8).collect()).collect();
+    let mut src = Replayed { values, next: 0 };
+    match r["kani_harness"].as_str().unwrap_or("") {
+        "kani_png_row_of_two" => match png_row_of_two(&mut src) { None => Ok(()), Some((ft, prev, raw, got)) => Err(format!("decode_row(filter type {}, bpp 1, previous row {:?}, row {:?}) gave {:?}, which is not the PNG reconstruction", ft, prev, raw, got)) },
+        "kani_permission_word" => match permission_word(&mut src) { None => Ok(()), Some((x, p)) => Err(format!("Permissions::from_bits_truncate({:#x}).p_value() = {:#x} violates ISO 32000-1 table 22", x, p)) },
+        "kani_filter_type_byte" => match filter_type_byte(&mut src) { None => Ok(()), Some(b) => Err(format!("FilterType::try_from({}) is wrong", b)) },
+        other => Err(format!("unknown Kani harness {:?}", other)),
+    }
+}
+
 fn replay(v: &serde_json::Value) -> i32 {
     let r = &v["failing_input"];
+    if v["step"].as_str().unwrap_or("").starts_with("kani:") {
+        return match common::guarded(std::panic::AssertUnwindSafe(|| replay_kani(r))) {
+            Ok(Ok(())) => { println!("replay: input no longer fails"); 0 }
+            Ok(Err(e)) => { println!("replay: STILL FAILS: {}", e); 1 }
+            Err(p) => { println!("replay: STILL FAILS: panic: {}", p); 1 }
+        };
+    }
     let cmd = v["step"].as_str().unwrap_or("").trim_start_matches("e3:").to_string();
     let res = match cmd.as_str() {
         "c01-roundtrip" | "c01-bytepairs" | "c01-reals" => c01::replay(r),
